@@ -38,6 +38,34 @@ fn clock() -> &'static Clock {
 /// only for measuring elapsed time between two reads, never as a timestamp to
 /// compare against another machine's clock.
 pub fn now_ms() -> u64 {
+    #[cfg(feature = "verif-hooks")]
+    if let Some(t) = verif_clock::get() {
+        return t;
+    }
     let c = clock();
     c.base_ms + c.anchor.elapsed().as_millis() as u64
+}
+
+/// Thread-local virtual clock override for runtime verification harnesses.
+/// Compiled only with the `verif-hooks` feature; when no override is set
+/// `now_ms()` behaves exactly as without the feature.
+#[cfg(feature = "verif-hooks")]
+pub mod verif_clock {
+    use std::cell::Cell;
+
+    thread_local! {
+        static OVERRIDE: Cell<Option<u64>> = const { Cell::new(None) };
+    }
+
+    pub fn set(now_ms: u64) {
+        OVERRIDE.with(|c| c.set(Some(now_ms)));
+    }
+
+    pub fn clear() {
+        OVERRIDE.with(|c| c.set(None));
+    }
+
+    pub fn get() -> Option<u64> {
+        OVERRIDE.with(|c| c.get())
+    }
 }
